@@ -73,8 +73,28 @@ package fastq
 //@   ensures result == nil <==> !w.failed
 //@   ensures result == nil || ioErr(result)
 //@   ensures result == nil ==> len(w.out) == old(len(w.out)) + 6 + len(f.Name) + len(f.Sequence) + len(f.Quals)
+//@   let L0 := old(len(w.out))
+//@   let A := old(len(w.out)) + 1
+//@   let B := old(len(w.out)) + 2 + len(f.Name)
+//@   let Q := old(len(w.out)) + 5 + len(f.Name) + len(f.Sequence)
+//@   ensures @C02 result == nil ==> forall x int :: 0 <= x && x < L0 ==> w.out[x] == old(w.out)[x]
+//@   ensures @C02 result == nil ==> w.out[L0] == '@' && w.out[B - 1] == 10
+//@   ensures @C02 result == nil ==> forall x int :: A <= x && x < B - 1 ==> w.out[x] == f.Name[x - A]
+//@   ensures @C02 result == nil ==> forall x int :: B <= x && x < Q - 3 ==> w.out[x] == f.Sequence[x - B]
+//@   ensures @C02 result == nil ==> w.out[Q - 3] == 10 && w.out[Q - 2] == '+' && w.out[Q - 1] == 10
+//@   ensures @C02 result == nil ==> forall x int :: Q <= x && x < Q + len(f.Quals) ==> w.out[x] == f.Quals[x - Q]
+//@   ensures @C02 result == nil ==> w.out[Q + len(f.Quals)] == 10
 
 //@ func Fastq.MarshalText
 //@   props C02
 //@   ensures result.1 == nil
 //@   ensures len(result.0) == 6 + len(f.Name) + len(f.Sequence) + len(f.Quals)
+//@   let A := 1
+//@   let B := 2 + len(f.Name)
+//@   let Q := 5 + len(f.Name) + len(f.Sequence)
+//@   ensures @C02 result.0[0] == '@' && result.0[B - 1] == 10
+//@   ensures @C02 forall x int :: A <= x && x < B - 1 ==> result.0[x] == f.Name[x - A]
+//@   ensures @C02 forall x int :: B <= x && x < Q - 3 ==> result.0[x] == f.Sequence[x - B]
+//@   ensures @C02 result.0[Q - 3] == 10 && result.0[Q - 2] == '+' && result.0[Q - 1] == 10
+//@   ensures @C02 forall x int :: Q <= x && x < Q + len(f.Quals) ==> result.0[x] == f.Quals[x - Q]
+//@   ensures @C02 result.0[Q + len(f.Quals)] == 10
